@@ -8,7 +8,11 @@ from debian_inspector import copyright as cr
 
 ID = 'C11'
 LEVEL = 'proof'
-THEOREMS = [('DebInspector.Thm.C11', ['Props.C11.sameMultiset_refl', 'Props.C11.removeAll_perm'])]
+THEOREMS = [('DebInspector.Thm.C11', ['Props.C11.sameMultiset_refl', 'Props.C11.removeAll_perm']),
+            ('DebInspector.Thm.C11W', ['Props.C11W.sound', 'Props.C11W.fromFieldsGroups_words', 'Props.C11W.fromFields_words', 'Props.C11W.mergeUnknown_words',
+                                       'Props.C11W.foldLicense_words', 'Props.C11W.fold_words']),
+            ('DebInspector.Proofs.WordsConv', ['Proofs.WordsConv.words_dumps_fromValue', 'Proofs.WordsConv.words_dumps_absent']),
+            ('DebInspector.Proofs.Words', ['Proofs.Words.words_splitlines'])]
 TRUSTED = [
     'Lean 4.33.0 kernel',
     'reading of the property as Props.C11.holdsOn (multiset of words of all tracked field lines = multiset of words of all values of the dictionary form)',
@@ -18,11 +22,15 @@ TRUSTED = [
 ASSUMPTIONS = ['the input side is the field groups of the line-tracking parser (that they account for the text is C05)']
 RULE = ('C07 streams enriched with reserved " .x" lines, dot-only lines in every position, Unknown-x fields next to empty licenses, duplicated fields, '
         'runs of junk paragraphs (merge) and empty License followed by free text (fold). non-trivial = the object has at least two paragraphs or a renamed field')
-TECHNIQUE = ('executable word-multiset specification evaluated on every implementation observation + correspondence with the hand model of the pipeline; '
-             'Lean 4 lemmas that the multiset comparison used is sound (permutation-invariant)')
-LEVEL_TEXT = ('Proved in Lean 4: the multiset comparison of the specification is exact - removeAll a b = some [] holds iff a is a permutation of b (removeAll_perm), '
-              'so the check cannot miss a lost or invented word. Conservation itself, over renaming, merging and folding alone and in combination, is decided '
-              'by that executable specification on every implementation observation and by correspondence with the hand model; it is not yet a theorem.')
+TECHNIQUE = ('Lean 4 theorem Props.C11W.sound: for every text the words of the tracked field lines and the words of the values of the dictionary form are the same multiset, through every recovery path '
+             '+ the same executable word-multiset specification evaluated on every implementation observation (against the text itself and against the reported groups) + correspondence with the hand model of the pipeline')
+LEVEL_TEXT = ('Props.C11W.sound: for every text, the multiset of words of the field values and free-text lines (as the line-tracking parser reads the text: the reading Props.C05.sound proves correct) equals the multiset of words of the values of the '
+              'dictionary form of the model of DebianCopyright.from_text - no word lost, none invented, each equally often. Steps, each a theorem for every input: the words of a text are the words of its lines and survive strip, joins and the '
+              'continuation-line codec (Proofs.Words); rendering the typed value of a field keeps the words of its text for every converter class and every value, an absent field renders to no words (words_dumps_fromValue, words_dumps_absent: '
+              'single line, line list, white-space list, formatted text, copyright statements with year ranges, license name + text); from_fields keeps the words of all fields under renamed duplicates, unknown names and empty values '
+              '(fromFields_words, by an invariant over the loop: stored names are distinct, known names are typed fields of the class, unknown names are not); merging runs of unknown paragraphs keeps them (mergeUnknown_words); '
+              'folding free text into an empty license paragraph keeps them (foldLicense_words / fold_words: the empty license paragraph has no words, the folded one has the words of the text). '
+              'removeAll_perm: the multiset comparison of the specification holds iff the two lists are permutations of each other. A full stop standing alone is not a word (Spec/Words).')
 LEVEL_NOTE = ('Trusted: Lean kernel; axioms propext, Classical.choice, Quot.sound only for the registered lemmas; conservation rests on specification evaluation + correspondence.')
 
 
